@@ -62,7 +62,30 @@ package ast
 //@ ghost var $thenSeq array[int]Ref
 //@ modset setlog = $setN, $setKind, $setNode, $setField, $setIndex, $setSel, $setVal, $addN, $addKey, $addObj, $addFailed
 //@ modset asglog = $asgN, $asgVar, $asgVal, $asgExprSnap, $asgVarSnap
-//@ modset actlog = @setlog, @asglog, $exprRes, $varRes, $atomRes
+// resolution log (C01): which data-context key / child node / value a variable or atom was resolved through, most recent call.
+// A variable is re-resolved on EVERY evaluation (it has no memo): its value is what the fact holds now.
+//@ ghost var $getN int
+//@ ghost var $getCtx Ref
+//@ ghost var $getKey string
+//@ ghost var $getRes Ref
+//@ ghost var $fldN int
+//@ ghost var $fldNode Ref
+//@ ghost var $fldName string
+//@ ghost var $fldRes Ref
+//@ ghost var $idxN int
+//@ ghost var $idxNode Ref
+//@ ghost var $idxIndex int
+//@ ghost var $idxRes Ref
+//@ ghost var $selN int
+//@ ghost var $selNode Ref
+//@ ghost var $selKey RV
+//@ ghost var $selRes Ref
+//@ ghost var $valN int
+//@ ghost var $valNode Ref
+//@ ghost var $valRes RV
+//@ macro func reslogMono() bool { return $getN >= old($getN) && $fldN >= old($fldN) && $idxN >= old($idxN) && $selN >= old($selN) && $valN >= old($valN) }
+//@ modset reslog = $getN, $getCtx, $getKey, $getRes, $fldN, $fldNode, $fldName, $fldRes, $idxN, $idxNode, $idxIndex, $idxRes, $selN, $selNode, $selKey, $selRes, $valN, $valNode, $valRes
+//@ modset actlog = @setlog, @asglog, $exprRes, $varRes, $atomRes, @reslog
 //@ ghost var $thenFailN int             // then-statements that returned an error
 //@ modset thenlog = $thenN, $thenSeq, $thenFailN
 //@ ghost var $resetAllN int             // calls of WorkingMemory.ResetAll (C13: once per run, in the prologue)
@@ -207,14 +230,15 @@ package ast
 //@ macro func lowerR(c Ref, h int) bool { return c != nil ==> $height[c] < h }
 // the same for atoms: the rank strictly decreases to the inner atom, the variable, the call and the selector
 //@ macro func atomWF() bool { return forall a *ExpressionAtom {a.Evaluated} :: a != nil ==> lowerR(a.ExpressionAtom, $height[a]) && lowerR(a.Variable, $height[a]) && lowerR(a.FunctionCall, $height[a]) && lowerR(a.ArrayMapSelector, $height[a]) }
-//@ macro func treeWF() bool { return exprWF() && atomWF() }
+//@ macro func varWF() bool { return forall v *Variable {v.ValueNode} :: v != nil ==> lowerR(v.Variable, $height[v]) && lowerR(v.ArrayMapSelector, $height[v]) }
+//@ macro func treeWF() bool { return exprWF() && atomWF() && varWF() }
 //@ macro func atomsAboveUntouched(n Ref) bool { return forall a *ExpressionAtom {a.Evaluated} :: $height[a] > $height[n] ==> a.Evaluated == old(a.Evaluated) && a.Value == old(a.Value) }
 //@ macro func aboveUntouched(h int) bool { return (forall x *Expression :: $height[x] > h ==> x.Evaluated == old(x.Evaluated) && x.Value == old(x.Value)) }
 //@ macro func isBinary(e *Expression) bool { return e.ExpressionAtom == nil && e.SingleExpression == nil && e.LeftExpression != nil && e.RightExpression != nil }
 //@ func (e *Expression) Evaluate(dataContext, memory) (val, err)
 //@   serves C01 C02 C05 C13 C14
 //@   requires $depth >= 0 && treeWF()
-//@   modifies @memo, $exprRes, $varRes, $atomRes
+//@   modifies @memo, $exprRes, $varRes, $atomRes, @reslog
 //@   ensures receiver: e != nil
 //@   ensures rank: forall x *Expression :: $height[x] > $height[e] ==> x.Evaluated == old(x.Evaluated) && x.Value == old(x.Value)
 //@   ghost_entry $depth = $depth + 1
@@ -238,14 +262,14 @@ package ast
 //@   ensures[C01] atomvalue: !old(e.Evaluated) && err == nil && e.ExpressionAtom != nil ==> val == $atomRes[e.ExpressionAtom]
 //@ func (e *WhenScope) Evaluate(dataContext, memory) (val, err)
 //@   requires $depth == 0 && treeWF()
-//@   modifies @memo, $exprRes, $varRes, $atomRes
+//@   modifies @memo, $exprRes, $varRes, $atomRes, @reslog
 
 //@ func (e *RuleEntry) Evaluate(ctx, dataContext, memory) (can, err)
 //@   serves C01 C10 C14 C15
 //@   requires e != nil && ctx != nil
 //@   requires $depth == 0 && !$inAction && treeWF()
 //@   nopanic
-//@   modifies @memo, $exprRes, $varRes, $atomRes, @ctxghost
+//@   modifies @memo, $exprRes, $varRes, $atomRes, @reslog, @ctxghost
 //@   ensures err != nil ==> !can
 //@   ensures old(e.Retracted) ==> !can
 //@   ensures err != nil ==> err_mentions(err, e.RuleName)
@@ -411,18 +435,30 @@ package ast
 //@   nopanic
 
 // ASSUMED for now (extern): evaluation of variables / selectors / atoms; frames and monotonicity only
-//@ extern func (e *Variable) Evaluate(dataContext, memory) (val, err)
-//@   modifies @memo, $varRes, $exprRes, $atomRes
-//@   ensures forall x *Expression :: old(x.Evaluated) ==> x.Evaluated && x.Value == old(x.Value)
-//@   ensures forall a *ExpressionAtom :: old(a.Evaluated) ==> a.Evaluated && a.Value == old(a.Value)
-//@   ensures err == nil ==> $varRes[e] == val
-//@   ensures atomsAboveUntouched(e)
+// Variable.Evaluate is CHECKED for the part C01 needs: every successful evaluation re-resolves the variable - a root name
+// through the data context it was given, a member through its owner's CURRENT node and its own name, an element through
+// the owner's current node and the selector value just evaluated - and returns (and stores) the value that node holds now.
+// The frame / monotonicity / rank clauses about what the recursion touches stay ASSUMED.
+//@ func (e *Variable) Evaluate(dataContext, memory) (val, err)
+//@   serves C01 C02
+//@   requires treeWF()
+//@   modifies @memo, $varRes, $exprRes, $atomRes, @reslog
+//@   ghost_exit $varRes = ite(err == nil, store($varRes, e, val), $varRes)
+//@   trusted_ensures forall x *Expression :: old(x.Evaluated) ==> x.Evaluated && x.Value == old(x.Value)
+//@   trusted_ensures forall a *ExpressionAtom :: old(a.Evaluated) ==> a.Evaluated && a.Value == old(a.Value)
+//@   trusted_ensures atomsAboveUntouched(e)
+//@   ensures mono: reslogMono()
+//@   checks[C01,C02] root: err == nil && len(e.Name) > 0 && e.Variable == nil ==> $getN > old($getN) && $getCtx == dataContext && $getKey == e.Name && e.ValueNode == $getRes && $valN > old($valN) && $valNode == e.ValueNode && val == $valRes && e.Value == val
+//@   checks[C01,C02] member: err == nil && e.Variable != nil && len(e.Name) > 0 ==> $fldN > old($fldN) && $fldNode == e.Variable.ValueNode && $fldName == e.Name && e.ValueNode == $fldRes && $valN > old($valN) && $valNode == e.ValueNode && val == $valRes && e.Value == val
+//@   checks[C01,C02] element: err == nil && e.Variable != nil && len(e.Name) == 0 && e.ArrayMapSelector != nil ==> (($idxN > old($idxN) && $idxNode == e.Variable.ValueNode && e.ValueNode == $idxRes) || ($selN > old($selN) && $selNode == e.Variable.ValueNode && e.ValueNode == $selRes)) && $valN > old($valN) && $valNode == e.ValueNode && val == $valRes && e.Value == val
+//@   checks[C01,C02] shape: err == nil ==> (len(e.Name) > 0) || (e.Variable != nil && e.ArrayMapSelector != nil)
 //@ extern func (e *ArrayMapSelector) Evaluate(dataContext, memory) (val, err)
-//@   modifies @memo, $exprRes, $varRes, $atomRes
+//@   modifies @memo, $exprRes, $varRes, $atomRes, @reslog
 //@   ensures forall x *Expression :: old(x.Evaluated) ==> x.Evaluated && x.Value == old(x.Value)
 //@   ensures forall a *ExpressionAtom :: old(a.Evaluated) ==> a.Evaluated && a.Value == old(a.Value)
 //@   ensures err == nil ==> e.Value == val
 //@   ensures atomsAboveUntouched(e)
+//@   ensures reslogMono()
 // ExpressionAtom.Evaluate: the memo discipline is CHECKED against the body (memo hit does no work; the flag is only ever
 // set together with the value that is returned, never on an error path; every memoising branch sets it on success). The
 // A-NESTED / monotonicity / rank clauses callers rely on stay ASSUMED (trusted_ensures): they are about what the callees
@@ -440,6 +476,10 @@ package ast
 //@   trusted_ensures ($depth > 0 || !$inAction) ==> (forall x *Expression :: old(x.Evaluated) ==> x.Evaluated && x.Value == old(x.Value)) && (forall a *ExpressionAtom :: old(a.Evaluated) ==> a.Evaluated && a.Value == old(a.Value))
 //@   ensures[C13] memohit: old(e.Evaluated) ==> err == nil && val == old(e.Value) && unchanged("memo") && unchanged("userstate")
 //@   ensures[C01,C02,C13] memoconsistent: e.Evaluated && !old(e.Evaluated) ==> err == nil && e.Value == val
+//@   ensures mono: reslogMono()
+//@   checks[C01,C02] fromvariable: !old(e.Evaluated) && err == nil && e.Constant == nil && e.Variable != nil ==> val == $varRes[e.Variable] && e.ValueNode == e.Variable.ValueNode
+//@   checks[C01,C02] member: !old(e.Evaluated) && err == nil && e.Constant == nil && e.Variable == nil && e.ExpressionAtom != nil && e.FunctionCall == nil && len(e.VariableName) > 0
+//@        ==> $fldN > old($fldN) && $fldNode == e.ExpressionAtom.ValueNode && $fldName == e.VariableName && e.ValueNode == $fldRes && $valN > old($valN) && $valNode == e.ValueNode && val == $valRes
 //@   checks[C13] memoset: err == nil && (e.Constant != nil || e.Variable != nil || (e.ExpressionAtom != nil && (e.FunctionCall != nil || len(e.VariableName) > 0 || e.ArrayMapSelector == nil))) ==> e.Evaluated
 //@   panic_ensures forall re *RuleEntry :: old(re.Retracted) ==> re.Retracted
 //@   panic_ensures forall d Ref :: old($complete[d]) ==> $complete[d]
@@ -453,8 +493,13 @@ package ast
 //@   ensures err == nil
 //@ extern func (d IDataContext) Get(key) (vn)
 //@   modifies
+//@   ghost_exit $getN = $getN + 1
+//@   ghost_exit $getCtx = d
+//@   ghost_exit $getKey = key
+//@   ghost_exit $getRes = vn
 //@ extern func (e *FunctionCall) EvaluateArgumentList(dataContext, memory) (args, err)
 //@   modifies @actions
+//@   ensures reslogMono()
 //@   ensures atomsAboveUntouched(e)
 //@   ensures forall re *RuleEntry :: old(re.Retracted) ==> re.Retracted
 //@   ensures forall d Ref :: old($complete[d]) ==> $complete[d]
@@ -462,6 +507,7 @@ package ast
 //@   panic_ensures forall d Ref :: old($complete[d]) ==> $complete[d]
 //@ extern func (n model.ValueNode) CallFunction(funcName, args) (ret, err)
 //@   modifies @actions
+//@   ensures reslogMono()
 // T-USER: user functions do not reach into the engine's memo
 //@   ensures unchanged("memo")
 //@   ensures forall re *RuleEntry :: old(re.Retracted) ==> re.Retracted
@@ -472,12 +518,30 @@ package ast
 //@   modifies
 //@ extern func (n model.ValueNode) GetChildNodeByField(field) (vn, err)
 //@   modifies
+//@   ensures err == nil ==> vn != nil
+//@   ghost_exit $fldN = $fldN + 1
+//@   ghost_exit $fldNode = n
+//@   ghost_exit $fldName = field
+//@   ghost_exit $fldRes = vn
 //@ extern func (n model.ValueNode) GetChildNodeByIndex(index) (vn, err)
 //@   modifies
+//@   ensures err == nil ==> vn != nil
+//@   ghost_exit $idxN = $idxN + 1
+//@   ghost_exit $idxNode = n
+//@   ghost_exit $idxIndex = index
+//@   ghost_exit $idxRes = vn
 //@ extern func (n model.ValueNode) GetChildNodeBySelector(index) (vn, err)
 //@   modifies
+//@   ensures err == nil ==> vn != nil
+//@   ghost_exit $selN = $selN + 1
+//@   ghost_exit $selNode = n
+//@   ghost_exit $selKey = index
+//@   ghost_exit $selRes = vn
 //@ extern func (n model.ValueNode) Value() (v)
 //@   modifies
+//@   ghost_exit $valN = $valN + 1
+//@   ghost_exit $valNode = n
+//@   ghost_exit $valRes = v
 //@ extern func (n model.ValueNode) IdentifiedAs() (s)
 //@   modifies
 //@ extern func model.NewGoValueNode(value, identifiedAs) (vn)
@@ -506,7 +570,8 @@ package ast
 // of the addressed shape, and forgets every expression / atom filed under the assigned variable (and nothing else)
 //@ func (e *Variable) Assign(newVal, dataContext, memory) (err)
 //@   serves C01 C02 C04 C13
-//@   modifies @memo, @setlog, $loc, $varRes, $exprRes, $atomRes
+//@   requires treeWF()
+//@   modifies @memo, @setlog, $loc, $varRes, $exprRes, $atomRes, @reslog
 //@   ghost_entry $asgN = $asgN + 1
 //@   ghost_entry $asgVar = e
 //@   ghost_entry $asgVal = newVal
@@ -527,7 +592,7 @@ package ast
 //@ func (e *Assignment) Execute(dataContext, memory) (err)
 //@   serves C04
 //@   requires $depth == 0 && treeWF()
-//@   modifies @memo, @setlog, $loc, $varRes, $exprRes, $atomRes, $asgN, $asgVar, $asgVal, $asgExprSnap, $asgVarSnap
+//@   modifies @memo, @setlog, $loc, $varRes, $exprRes, $atomRes, @reslog, $asgN, $asgVar, $asgVal, $asgExprSnap, $asgVarSnap
 //@   ensures[C04] assign: err == nil && e.IsAssign ==> $asgN == old($asgN) + 1 && $asgVar == e.Variable && $asgVal == e.Expression.Value
 //@   ensures[C04] plus: err == nil && !e.IsAssign && e.IsPlusAssign ==> $asgN == old($asgN) + 1 && $asgVar == e.Variable && $asgVal == fn_EvaluateAddition_0($asgVarSnap[e.Variable], e.Expression.Value)
 //@   ensures[C04] minus: err == nil && !e.IsAssign && !e.IsPlusAssign && e.IsMinusAssign ==> $asgN == old($asgN) + 1 && $asgVar == e.Variable && $asgVal == fn_EvaluateSubtraction_0($asgVarSnap[e.Variable], e.Expression.Value)
